@@ -26,9 +26,10 @@ ENCODES = ['pexpect.pty_spawn.spawn.send', 'pexpect.pty_spawn.spawn.sendline', '
            'pexpect.popen_spawn.PopenSpawn.sendline', 'pexpect.popen_spawn.PopenSpawn.writelines',
            'pexpect.socket_pexpect.SocketSpawn.send', 'pexpect.socket_pexpect.SocketSpawn.sendline',
            'pexpect.spawnbase.SpawnBase._coerce_send_string', 'ptyprocess.ptyprocess.PtyProcess.sendcontrol']
-STUBS = ['FakeEncoder (unicode mode): records every text, returns an opaque token; the write end records tokens',
+STUBS = ['FakeEncoder (unicode mode): records every text, returns an opaque token of len(text) + pad bytes (pad '
+         'symbolic: bytes != characters); the write end records tokens',
          'os.write / socket.sendall / Popen.stdin.write: recorders; A3: a blocking write transfers everything and '
-         'reports a (symbolic) count', 'time.sleep (delaybeforesend): virtual clock']
+         'reports the number of bytes it was given', 'time.sleep (delaybeforesend): virtual clock']
 ASSUMPTIONS = ['A3 blocking writes are complete', 'payloads <= 3 characters each, <= 3 calls per history',
                'bytes mode + text argument: ASCII in the symbolic obligations (non-ASCII UTF-8 in the concrete dry runs)']
 
@@ -59,7 +60,7 @@ class _Stdin:
         return self.we.fwrite(b)
 
 
-def _mk(tr, uni, we):
+def _mk(tr, uni, we, pad=0):
     """transport object of kind tr (0 pty, 1 fd, 2 popen, 3 socket)"""
     enc = 'utf-8' if uni else None
     if tr == 0:
@@ -81,7 +82,7 @@ def _mk(tr, uni, we):
     else:
         sp = SK.SocketSpawn(_Sock(we), encoding=enc)
     if uni:
-        sp._encoder = FakeEncoder()
+        sp._encoder = FakeEncoder(pad)
     return sp
 
 
@@ -94,8 +95,9 @@ def _cat(parts, empty):
 
 def _run(tr, uni, astext, a, b, op0, op1, ret):
     tr = pick(tr, 0, 3)
-    we = WriteEnd(ret)
-    sp = _mk(tr, uni, we)
+    pad = 0 if ret is None else ret        # unicode mode: every non-empty text encodes to len(text) + pad bytes
+    we = WriteEnd()
+    sp = _mk(tr, uni, we, pad)
     clk = Clock(0)
 
     class _OS:
@@ -109,11 +111,14 @@ def _run(tr, uni, astext, a, b, op0, op1, ret):
     linesep = sp.linesep
     with patched(PS, os=_OS, time=clk), patched(FD, os=_OS):
         for op, payload in ((pick(op0, 0, 3), a), (pick(op1, 0, 3), b)):
+            nw = len(we.writes)
             if op == 0:
-                rets.append((sp.send(payload), 1))
+                r = sp.send(payload)
+                rets.append((r, nw, len(we.writes)))
                 expected.append(payload)
             elif op == 1:
-                rets.append((sp.sendline(payload), 2 if tr == 2 else 1))
+                r = sp.sendline(payload)
+                rets.append((r, nw, len(we.writes)))
                 expected.append(payload)
                 expected.append(linesep)
             elif op == 2:
@@ -150,11 +155,14 @@ def _run(tr, uni, astext, a, b, op0, op1, ret):
     for fd, d in we.writes:
         if fd not in (7, 'stdin', 'sock'):
             return 0
-    # send/sendline report what the write reported
-    if ret is not None and tr != 3:
-        for r, nwrites in rets:
-            if r != ret * nwrites:
-                return 0
+    # send/sendline return the number of bytes written by that call (A3: the write takes everything; in unicode
+    # mode the number of bytes is the encoder's, not the number of characters)
+    for r, nw, end in rets:
+        total = 0
+        for fd, d in we.writes[nw:end]:
+            total = total + len(d)
+        if r != total:
+            return 0
     return 2 + tr
 
 
@@ -166,7 +174,7 @@ def _is_bytes(p):
 
 @obligation(params=dict(tr=Int(0, 3), a=Text(3), b=Text(3), op0=Int(0, 3), op1=Int(0, 3), ret=OptInt(0, 9)),
             tags={2: 'pty', 3: 'fd', 4: 'piped subprocess', 5: 'socket'}, timeout=600, split=('tr',),
-            note='unicode mode: two calls out of send/sendline/write/writelines with symbolic text (any code points)')
+            note='(ret: extra bytes per encoded text) unicode mode: two calls out of send/sendline/write/writelines with symbolic text (any code points)')
 def S1_unicode(tr, a, b, op0, op1, ret):
     return _run(tr, True, True, a, b, op0, op1, ret)
 
